@@ -40,6 +40,7 @@ static int run_args(const uint8_t *a, int n)
 int main(int argc, char **argv)
 {
         sw_init(argc, argv, "args");
+        int lite = sw_argi(argc, argv, "--lite", 0);
         static const int CAPS[] = {6, 7, 8, 16};
         int idx = 0;
         uint8_t a[400];
@@ -48,6 +49,7 @@ int main(int argc, char **argv)
                         for (int shared = 0; shared < 2; shared++, idx++) {
                                 if (idx % SW.nshards != SW.shard) continue;
                                 int cap = CAPS[ci];
+                                if (lite && cap == 16) continue;
                                 build(k, cap, shared);
                                 snprintf(SW.extra, sizeof SW.extra, "kind=%d cap=%d shared=%d", k, cap, shared);
                                 /* positional sweep: every byte value at every position of every length */
